@@ -563,13 +563,20 @@ class Path(Expression):
                 self.path.append(segment)
 
     def __str__(self) -> str:
+        return self._str()
+
+    def _str(self, *, nested: bool = False) -> str:
+        # Inside brackets every bare word is a path, keywords included.
         it = iter(self.path)
         root = next(it)
         if isinstance(root, Path):
+            buf = [f"[{root._str(nested=True)}]"]
+        elif isinstance(root, int):
+            # A bare number would be read as an integer literal.
             buf = [f"[{root}]"]
         elif isinstance(root, str) and (
             not RE_PROPERTY.fullmatch(root)
-            or (len(self.path) == 1 and root in _RESERVED_WORDS)
+            or (len(self.path) == 1 and root in _RESERVED_WORDS and not nested)
         ):
             # Not a valid bare word, or a word that would be read as a keyword.
             buf = [f"[{quote_string(root)}]"]
@@ -577,7 +584,7 @@ class Path(Expression):
             buf = [str(root)]
         for segment in it:
             if isinstance(segment, Path):
-                buf.append(f"[{segment}]")
+                buf.append(f"[{segment._str(nested=True)}]")
             elif isinstance(segment, str):
                 if RE_PROPERTY.fullmatch(segment):
                     buf.append(f".{segment}")
